@@ -167,9 +167,14 @@ type C16 struct {
 	anyOrder, anyShard bool
 	seenOrders         map[uint64]string
 	updates            int64
+	// per accepted update order: the base it named; and which orders have committed their version already
+	baseOf    map[uint64]string
+	committed map[uint64]bool
 }
 
-func NewC16() *C16 { return &C16{seenOrders: map[uint64]string{}} }
+func NewC16() *C16 {
+	return &C16{seenOrders: map[uint64]string{}, baseOf: map[uint64]string{}, committed: map[uint64]bool{}}
+}
 
 func (m *C16) ID() string          { return "C16" }
 func (m *C16) Done(w *world.World) { w.Count("c16.updates_accepted", m.updates) }
@@ -305,6 +310,24 @@ func (m *C16) Tx(w *world.World, e *world.TxEvent) {
 	}
 	m.history(w, where, e.Kind, e.Pre, e.Post, fp)
 	m.inflight(w, where, e.Post)
+	if msg, ok := e.Msg.(*saotypes.MsgComplete); ok && e.OK {
+		// a completion that commits a version: the order commits once, onto the version it named as its base
+		if o, ok := e.Pre.Orders[msg.OrderId]; ok {
+			pre, had := e.Pre.Metas[o.DataId]
+			post, has := e.Post.Metas[o.DataId]
+			if had && has && pre.CreatedAt == post.CreatedAt && len(post.Commits) == len(pre.Commits)+1 {
+				if m.committed[o.Id] {
+					w.Violate("C16", "order-committed-twice", fmt.Sprintf("order %d of %s had already committed its version; a later completion appended %q to the history again", o.Id, o.DataId, strs(post.Commits[len(post.Commits)-1:])[0]), map[string]interface{}{"before": strs(pre.Commits), "after": strs(post.Commits)})
+				}
+				if base, known := m.baseOf[o.Id]; known && o.Operation == 1 && len(pre.Commits) > 0 {
+					if last := commitOfVersion(pre.Commits[len(pre.Commits)-1]); last != base {
+						w.Violate("C16", "version-committed-onto-other-base", fmt.Sprintf("order %d of %s named base %q but its version was appended after %q", o.Id, o.DataId, base, last), map[string]interface{}{"before": strs(pre.Commits), "after": strs(post.Commits)})
+					}
+				}
+				m.committed[o.Id] = true
+			}
+		}
+	}
 	if msg, ok := e.Msg.(*saotypes.MsgStore); ok && e.OK {
 		p := msg.Proposal
 		if md, existed := e.Pre.Metas[p.DataId]; existed {
@@ -312,6 +335,9 @@ func (m *C16) Tx(w *world.World, e *world.TxEvent) {
 			base := p.CommitId
 			if i := strings.Index(p.CommitId, "|"); i >= 0 {
 				base = p.CommitId[:i]
+			}
+			if id, ok := world.NewOrderID(e); ok {
+				m.baseOf[id] = base
 			}
 			latest := ""
 			if len(md.Commits) > 0 {
